@@ -9,6 +9,7 @@ import z3
 from z3 import And, Or, Not, Implies, ForAll, Select, If, IntSort, BoolSort
 
 from pyvc.values import *  # noqa
+from pyvc.engine import Obligation
 from pyvc.contracts import FunctionContract, FunctionUnit, LemmaUnit
 
 PROP = "C20"
@@ -290,8 +291,47 @@ class PadContract(FunctionContract):
                 ("padding-is-blank", z3.InRe(st.g("blanks"), z3.Star(z3.Re(z3.StringVal(" ")))))]
 
 
+class WrapLineDefault(WrapLine):
+    """the same contract when no lexer is passed: the default must be functools.partial(shlex.split, posix=False), the
+    lexer A-LEX is stated for (blank-separated words, a quote respected at the start of a word, NO comment character);
+    any other default is outside the assumption: undecided, the bounded stand-in decides"""
+    variant_name = "default-lexer"
+
+    def params(self, ctx):
+        super().params(ctx)
+        ctx.env["lex_func"] = NONE
+
+    def m_partial(self, ctx, it, args, kw):
+        f = ctx.deref(args[0]) if args else None
+        posix = ctx.deref(kw["posix"]) if "posix" in kw else None
+        ok = (len(args) == 1 and isinstance(f, VPy) and f.py == "shlex.split" and set(kw) == {"posix"}
+              and isinstance(posix, VBool) and z3.is_false(z3.simplify(posix.t)))
+        if not ok:
+            raise Unsupported("default lexer is not functools.partial(shlex.split, posix=False): A-LEX does not cover it")
+        return VFunc("lex_func", self.m_lex)
+
+    def getattr_hook(self, ctx, it, obj, name):
+        o = ctx.deref(obj)
+        if isinstance(o, VPy) and o.py in ("shlex", "functools"):
+            return VPy(o.py + "." + name)
+        base = getattr(super(), "getattr_hook", None)
+        return base(ctx, it, obj, name) if base else None
+
+    @property
+    def calls(self):
+        d = dict(getattr(super(), "calls", {}) or {})
+        d["functools.partial"] = self.m_partial
+        return d
+
+    @property
+    def names(self):
+        d = dict(getattr(super(), "names", {}) or {})
+        d.update({"shlex": VPy("shlex"), "functools": VPy("functools")})
+        return d
+
+
 def units():
-    return [FunctionUnit(WrapLine()),
+    return [FunctionUnit(WrapLine()), FunctionUnit(WrapLineDefault()),
             FunctionUnit(PadContract("dagrt/codegen/python.py", "pad_python", "\\")),
             FunctionUnit(PadContract("dagrt/codegen/fortran.py", "pad_fortran", "&"))]
 
